@@ -30,6 +30,8 @@
  *        k<t><ow>     tickit_pen_copy(pen, template t, overwrite ow)          (freeze … thaw)
  *        a<t>         tickit_pen_copy_attr(pen, template t, FG)              (freeze, set index [emits], RGB8, thaw)
  *        d<n> | D<n>  tickit_pen_set_colour_attr_desc(pen, FG, "n" | "n#112233")
+ *        h<n>         …_desc(pen, FG, "hi-n")   (rejected without effect for n > 7)
+ *        n<i>         …_desc(pen, FG, name)     i: 0 "red", 1 "hi-red", 2 "grey", 3 "hi-grey", 4 an unknown name (rejected), 5 "blue#112233"
  *      templates: 0 {bold=1}  1 {bold=0}  2 {fg=3 #102030}  3 {bold=1, fg=2}  4 {fg=3}
  *
  * Observation: the call log of the operation.
@@ -135,6 +137,12 @@ static void do_pen(const char *code)
     case 'a': { int t = code[1] - '0'; if(t >= 0 && t < NTMPL) tickit_pen_copy_attr(pen, tmpl[t], TICKIT_PEN_FG); break; }
     case 'd': { char d[16]; snprintf(d, sizeof d, "%d", n); tickit_pen_set_colour_attr_desc(pen, TICKIT_PEN_FG, d); break; }
     case 'D': { char d[24]; snprintf(d, sizeof d, "%d#112233", n); tickit_pen_set_colour_attr_desc(pen, TICKIT_PEN_FG, d); break; }
+    case 'h': { char d[24]; snprintf(d, sizeof d, "hi-%d", n); tickit_pen_set_colour_attr_desc(pen, TICKIT_PEN_FG, d); break; }
+    case 'n': {
+      static const char *const names[] = { "red", "hi-red", "grey", "hi-grey", "nosuchcolour", "blue#112233" };
+      if(n >= 0 && n < 6) tickit_pen_set_colour_attr_desc(pen, TICKIT_PEN_FG, names[n]);
+      break;
+    }
   }
   emit_depth--;
   if(!emit_depth && dropped) gone = 1;
